@@ -8,7 +8,7 @@ compare them across Doist / DoDoer and do / ado without comparing text.
 import ast
 
 from .absint import Domain, Interp, NORMAL, RETURN, BREAK, CONTINUE, RAISE, is_raise
-from .astutil import is_self_call, method_call, unparse, enclosing, parent, assigned_names, ancestors, keytext, flat
+from .astutil import is_self_call, method_call, unparse, enclosing, parent, assigned_names, ancestors, keytext, flat, oriented
 from .deps import DepDomain, fs
 from .index import dotted, walk_local
 from .loader import AnalysisError
@@ -199,6 +199,19 @@ def loop_test_is_nonempty(loop, deq):
                 and dotted(t.left.args[0]) == deq and len(t.ops) == 1 \
                 and isinstance(t.ops[0], (ast.Gt, ast.NotEq)) and getattr(t.comparators[0], "value", None) == 0:
             return "until-empty"
+        # counted form: N = len(deq) before the loop, `while N > 0` (or `while N`), N decremented by one once per iteration
+        o = oriented(t, lambda e: isinstance(e, ast.Name)) if isinstance(t, ast.Compare) else ((t, "Gt", ast.Constant(value=0)) if isinstance(t, ast.Name) else None)
+        if o and o[1] in ("Gt", "NotEq") and getattr(o[2], "value", None) == 0:
+            n = o[0].id
+            fn = parent(loop)
+            while fn is not None and not isinstance(fn, (ast.FunctionDef, ast.AsyncFunctionDef)):
+                fn = parent(fn)
+            inits = [a for a in (walk_local(fn) if fn is not None else []) if isinstance(a, ast.Assign) and dotted(a.targets[0]) == n]
+            decs = [a for a in ast.walk(loop) if isinstance(a, ast.AugAssign) and dotted(a.target) == n]
+            if len(inits) == 1 and isinstance(inits[0].value, ast.Call) and dotted(inits[0].value.func) == "len" and inits[0].value.args \
+                    and dotted(inits[0].value.args[0]) == deq and inits[0].lineno < loop.lineno \
+                    and len(decs) == 1 and isinstance(decs[0].op, ast.Sub) and getattr(decs[0].value, "value", None) == 1 and decs[0] in loop.body:
+                return "len-times"
         return None
     if isinstance(loop, ast.For):
         it = loop.iter
